@@ -37,7 +37,7 @@ func init() {
 		Parallel:    func(tier string) int { return 8 },
 		Require: func(tier string) map[string]int64 {
 			return map[string]int64{"histories": 100, "calls_recorded": 8000, "effectful_replayed": 3000, "reads_placed": 2000, "porcupine_ok": 300, "transactions_committed": 200, "snapshot_reads_checked": 300,
-				"overlapping_pairs": 5000, "hammer_increments": 3000, "hook_events": 20000}
+				"overlapping_pairs": 5000, "hammer_increments": 3000, "queue_jobs": 1000, "transactions_ending_with_a_noop": 500, "hook_events": 20000}
 		},
 		WorkerTimeoutSec: func(tier string) int {
 			if tier == "thorough" {
@@ -799,7 +799,118 @@ func c04Conservation(c *fw.Ctx, ctx context.Context, w *world, all []*c04Op, key
 // ---------------------------------------------------------------------------
 // lost-update hammer
 
+// c04Queue: a priority queue worked on by claimers (FindOneAndUpdate
+// ready -> running, sorted) and cancellers (FindOneAndDelete of a ready job,
+// sorted), all auto-committed and concurrent. Each call is a read-modify-write
+// on the first matching document: the document it returns must have matched
+// its filter (state ready), and every job ends up claimed or cancelled, never
+// both, never twice.
+func c04Queue(c *fw.Ctx) {
+	if c.Batch >= 8 {
+		return
+	}
+	idx := 9800100 + c.Batch
+	if c.Skip(idx) {
+		return
+	}
+	c.Case(idx, nil, nil, func() {
+		c.Eval(1)
+		ctx := context.Background()
+		w, err := openWorld("")
+		if err != nil {
+			c.Inconclusive("open engine: " + err.Error())
+			return
+		}
+		defer w.close()
+		ctl := sched.New(nil)
+		ctl.Random = true
+		ctl.Install()
+		defer sched.Remove()
+		jobs := c.N(240, 1200)
+		coll := w.client.Database("d").Collection("jobs")
+		var docs []interface{}
+		for i := 0; i < jobs; i++ {
+			docs = append(docs, bson.D{{Key: "_id", Value: int32(i)}, {Key: "state", Value: "ready"}, {Key: "prio", Value: int32((i * 7) % 13)}})
+		}
+		if _, err := coll.InsertMany(ctx, docs); err != nil {
+			c.Inconclusive("setup: " + err.Error())
+			return
+		}
+		type job struct {
+			ID    int32  `bson:"_id"`
+			State string `bson:"state"`
+		}
+		var mu sync.Mutex
+		claimed, cancelled := map[int32]int{}, map[int32]int{}
+		var bad atomic.Value
+		var wg sync.WaitGroup
+		workers := 8
+		for g := 0; g < workers; g++ {
+			wg.Add(1)
+			go func(g int) {
+				defer wg.Done()
+				ctl.Register(g, uint64(g)+101)
+				sortDoc := bson.D{{Key: "prio", Value: int32(1)}, {Key: "_id", Value: int32(1)}}
+				if g%4 >= 2 {
+					sortDoc = bson.D{{Key: "prio", Value: int32(-1)}}
+				}
+				for {
+					var j job
+					var err error
+					if g%2 == 0 {
+						err = coll.FindOneAndUpdate(ctx, bson.D{{Key: "state", Value: "ready"}}, bson.D{{Key: "$set", Value: bson.D{{Key: "state", Value: "running"}, {Key: "by", Value: int32(g)}}}}, options.FindOneAndUpdate().SetSort(sortDoc)).Decode(&j)
+					} else {
+						err = coll.FindOneAndDelete(ctx, bson.D{{Key: "state", Value: "ready"}}, options.FindOneAndDelete().SetSort(sortDoc)).Decode(&j)
+					}
+					if errors.Is(err, lungo.ErrNoDocuments) {
+						return
+					}
+					if err != nil {
+						bad.CompareAndSwap(nil, "a queue call failed: "+err.Error())
+						return
+					}
+					if j.State != "ready" {
+						kind := "FindOneAndUpdate"
+						if g%2 == 1 {
+							kind = "FindOneAndDelete"
+						}
+						bad.CompareAndSwap(nil, fmt.Sprintf("%s({state: ready}) acted on and returned job %d in state %q: a concurrent write was overwritten", kind, j.ID, j.State))
+						return
+					}
+					mu.Lock()
+					if g%2 == 0 {
+						claimed[j.ID]++
+					} else {
+						cancelled[j.ID]++
+					}
+					mu.Unlock()
+				}
+			}(g)
+		}
+		wg.Wait()
+		c.Count("queue_jobs", int64(jobs))
+		c.Count("hammer_increments", int64(len(claimed)+len(cancelled)))
+		if p := bad.Load(); p != nil {
+			c.Violate("queue:overwritten", p.(string), nil)
+			return
+		}
+		for i := 0; i < jobs; i++ {
+			id := int32(i)
+			if claimed[id]+cancelled[id] != 1 {
+				c.Violate("queue:not-exactly-once", fmt.Sprintf("job %d was claimed %d times and cancelled %d times", id, claimed[id], cancelled[id]), nil)
+				return
+			}
+		}
+		n, _ := coll.CountDocuments(ctx, bson.D{})
+		r, _ := coll.CountDocuments(ctx, bson.D{{Key: "state", Value: "running"}})
+		if int(n) != len(claimed) || int(r) != len(claimed) {
+			c.Violate("queue:contents", fmt.Sprintf("%d jobs were claimed and %d cancelled, but the collection holds %d documents (%d running)", len(claimed), len(cancelled), n, r), nil)
+		}
+	})
+}
+
 func c04Hammer(c *fw.Ctx) {
+	c04Queue(c)
 	if c.Batch >= 8 {
 		return
 	}
@@ -823,6 +934,8 @@ func c04Hammer(c *fw.Ctx) {
 		coll := w.client.Database("d").Collection("ctr")
 		coll.InsertOne(ctx, bson.D{{Key: "_id", Value: "plain"}, {Key: "n", Value: int64(0)}})
 		coll.InsertOne(ctx, bson.D{{Key: "_id", Value: "rmw"}, {Key: "n", Value: int64(0)}})
+		coll.InsertOne(ctx, bson.D{{Key: "_id", Value: "marker"}, {Key: "v", Value: int32(1)}})
+		var trailingNoops atomic.Int64
 		workers := c.N(8, 16)
 		per := c.N(60, 500)
 		var acked, ackedRMW atomic.Int64
@@ -850,6 +963,27 @@ func c04Hammer(c *fw.Ctx) {
 							}
 							runtime.Gosched()
 							_, err := coll.UpdateOne(sc, bson.D{{Key: "_id", Value: "rmw"}}, bson.D{{Key: "$set", Value: bson.D{{Key: "n", Value: d.N + 1}}}})
+							if err != nil {
+								return nil, err
+							}
+							// the transaction ends with a call that changes nothing (same
+							// content, no match): its earlier write must still be committed
+							switch (i / 3) % 6 {
+							case 1:
+								_, err = coll.ReplaceOne(sc, bson.D{{Key: "_id", Value: "marker"}}, bson.D{{Key: "v", Value: int32(1)}})
+							case 2:
+								_, err = coll.UpdateOne(sc, bson.D{{Key: "_id", Value: "marker"}}, bson.D{{Key: "$set", Value: bson.D{{Key: "v", Value: int32(1)}}}})
+							case 3:
+								_, err = coll.DeleteOne(sc, bson.D{{Key: "_id", Value: "no such document"}})
+							case 4:
+								err = coll.FindOneAndReplace(sc, bson.D{{Key: "_id", Value: "no such document"}}, bson.D{{Key: "v", Value: int32(2)}}).Err()
+								if errors.Is(err, lungo.ErrNoDocuments) {
+									err = nil
+								}
+							case 5:
+								_, err = coll.UpdateMany(sc, bson.D{{Key: "v", Value: int32(77)}}, bson.D{{Key: "$inc", Value: bson.D{{Key: "v", Value: int32(1)}}}})
+							}
+							trailingNoops.Add(1)
 							return nil, err
 						})
 						if err == nil {
@@ -862,6 +996,7 @@ func c04Hammer(c *fw.Ctx) {
 		}
 		wg.Wait()
 		c.Count("hammer_increments", acked.Load()+ackedRMW.Load())
+		c.Count("transactions_ending_with_a_noop", trailingNoops.Load())
 		var d struct {
 			N int64 `bson:"n"`
 		}
